@@ -987,11 +987,17 @@ where
             // So we handle TurnUndead here, otherwise the nodes will be
             // spamming each other with this message until enough time passes
             // that foca forgets the down member (`Config::remove_down_after`)
+            let mut notify_sender = self.config.notify_down_members;
             if message == Message::TurnUndead {
+                let previous_id = self.identity.clone();
                 self.handle_self_update(Incarnation::default(), State::Down, &mut runtime)?;
+                // Only a renewed identity is news to the sender. Replying
+                // under the same (down) identity would make two members
+                // that consider each other down bounce TurnUndead forever
+                notify_sender = notify_sender && self.identity != previous_id;
             }
 
-            if self.config.notify_down_members {
+            if notify_sender {
                 self.send_message(src, Message::TurnUndead, runtime)?;
             }
 
